@@ -15,6 +15,7 @@ import (
 	"path/filepath"
 	"regexp"
 	"strings"
+	"syscall"
 	"time"
 
 	"github.com/magisterquis/curlrevshell/verifx/ev"
@@ -130,8 +131,19 @@ func c05RealBinary(r *ev.Result, base string) {
 // c11RealBinary: a session of the real binary with -log; the file must be a
 // sequence of one-line JSON objects telling the same story.
 func c11RealBinary(r *ev.Result, base string) {
+	/* A run may end by the operator leaving, or by the process being
+	killed: what was delivered before is in the file either way. */
+	c11RealSession(r, base, "ctrl-d")
+	c11RealSession(r, base, "sigkill")
+}
+
+func c11RealSession(r *ev.Result, base, endBy string) {
 	v := func(sig, what string) {
-		r.Violate(ev.Violation{Signature: "logfile/" + sig, What: what, Kind: "c11file", Replay: map[string]string{"scenario": "real binary with -log"}})
+		if "ctrl-d" != endBy {
+			sig += "/" + endBy
+			what = "session ended by " + endBy + " right after the 'gone' notice: " + what
+		}
+		r.Violate(ev.Violation{Signature: "logfile/" + sig, What: what, Kind: "c11file", Replay: map[string]string{"scenario": "real binary with -log, ended by " + endBy}})
 	}
 	dir, _ := os.MkdirTemp(base, "log-")
 	defer os.RemoveAll(dir)
@@ -190,9 +202,27 @@ func c11RealBinary(r *ev.Result, base string) {
 		v("session", "no 'gone' notice")
 		return
 	}
+	/* Both handlers have returned (and so have written their last records)
+	once the server has ended both exchanges. */
+	ci.C.SetReadDeadline(time.Now().Add(30 * time.Second))
+	for tailBytes := ""; !strings.HasSuffix(tailBytes, "0\r\n\r\n"); {
+		b, err := ci.R.ReadByte() /* up to the last chunk of the /i response */
+		if nil != err {
+			break
+		}
+		tailBytes += string(b)
+		if len(tailBytes) > 16 {
+			tailBytes = tailBytes[len(tailBytes)-8:]
+		}
+	}
+	co.C.SetReadDeadline(time.Now().Add(30 * time.Second))
+	co.ReadResponse("POST")
 	ci.Close()
 	co.Close()
-	if st := stopReal(p); 0 != st {
+	if "sigkill" == endBy {
+		p.Cmd.Process.Signal(syscall.SIGKILL)
+		p.Wait(30 * time.Second)
+	} else if st := stopReal(p); 0 != st {
 		v("exit-status", fmt.Sprintf("exit status %d", st))
 	}
 	/* The file. */
